@@ -164,10 +164,16 @@ impl StaticsContext {
         iface: &Rc<InterfaceDef>,
     ) -> Option<Rc<InterfaceImpl>> {
         // TODO: cache this using hashmap
-        let impl_list = self.interface_impls[iface].clone();
+        // an interface nobody implements has no entry; an impl for an unresolved type fits nothing
+        let impl_list = self.interface_impls.get(iface)?;
         impl_list
-            .into_iter()
-            .find(|imp| ty.fits_impl_ty(&imp.typ.to_solved_type(self).unwrap()))
+            .iter()
+            .find(|imp| {
+                imp.typ
+                    .to_solved_type(self)
+                    .is_some_and(|impl_ty| ty.fits_impl_ty(&impl_ty))
+            })
+            .cloned()
     }
 
     pub(crate) fn get_free_function_decl(&self, name: &str) -> Rc<FuncDef> {
